@@ -25,7 +25,49 @@ use serde_json::Value as J;
 
 pub const ALL: &[&str] = &["C01", "C02", "C03", "C04", "C05", "C06", "C07", "C08", "C09", "C10", "C11", "C12", "C13", "C14", "C15", "C16", "C17", "C18", "C19", "C20"];
 
+/// Replay tier: every saved minimal failing case of this property under /verif/regress (shrunk failures of
+/// the repaired defects, of the seeded changes and of the mutants) is replayed deterministically, without
+/// any generator, before the generative families run.
+fn regress(ctx: &mut Ctx) {
+	if !ctx.wants("R_regression_replays") {
+		return;
+	}
+	let dir = crate::framework::verif_dir().join("regress");
+	let mut files: Vec<std::path::PathBuf> = match std::fs::read_dir(&dir) {
+		Ok(rd) => rd.filter_map(|e| e.ok()).map(|e| e.path()).filter(|p| p.file_name().and_then(|n| n.to_str()).map(|n| n.starts_with(ctx.prop) && n.ends_with(".json")).unwrap_or(false)).collect(),
+		Err(_) => return,
+	};
+	if files.is_empty() {
+		return;
+	}
+	files.sort();
+	ctx.begin_family("R_regression_replays");
+	let mut fam = crate::framework::Fam::new("R_regression_replays", &format!("deterministic replay of the {} saved minimal failing cases of this property (regress/{}-*.json: shrunk counterexamples of the repaired defects, of the seeded changes and of the mutants), each through the same oracle as the family that found it; every case is non-trivial by construction (it failed on some variant of the code)", files.len(), ctx.prop), true);
+	for f in &files {
+		let j = crate::framework::read_replay(f);
+		let family = j["family"].as_str().unwrap_or("").to_string();
+		let name = f.file_name().unwrap().to_string_lossy().to_string();
+		let wrapped = serde_json::json!({"family": family, "case": j["case"], "file": name, "origin": j["origin"]});
+		fam.tick();
+		let prop = ctx.prop;
+		match crate::framework::guarded(|| replay(prop, &family, &j["case"])) {
+			Ok(Ok(())) => {
+				fam.nontrivial();
+				fam.class(j["origin"].as_str().map(|o| o.split(':').next().unwrap_or("other").to_string()).unwrap_or_else(|| "other".into()).as_str());
+			}
+			Ok(Err(m)) if m.starts_with("UNSUPPORTED") => fam.class("unsupported_by_replay"),
+			Ok(Err(m)) | Err(m) => fam.fail(wrapped, format!("saved case {name}: {m}"), None),
+		}
+	}
+	if let Some(f) = files.first() {
+		let j = crate::framework::read_replay(f);
+		fam.sample(|| serde_json::json!({"file": f.file_name().unwrap().to_string_lossy(), "family": j["family"], "origin": j["origin"]}));
+	}
+	ctx.add(fam);
+}
+
 pub fn run(ctx: &mut Ctx) {
+	regress(ctx);
 	match ctx.prop {
 		"C01" => c01::run(ctx),
 		"C02" => c02::run(ctx),
@@ -56,6 +98,9 @@ pub fn replay(prop: &str, family: &str, case: &J) -> Result<(), String> {
 		std::env::set_var("JSV_FUZZ_PROP", prop);
 		let bytes = crate::framework::dec_bytes(case);
 		return crate::fuzzglue::run_target(target, &bytes).map(|_| ());
+	}
+	if family == "R_regression_replays" {
+		return replay(prop, case["family"].as_str().unwrap_or(""), &case["case"]);
 	}
 	match prop {
 		"C01" => c01::replay(family, case),
